@@ -18,3 +18,135 @@ fn('approximate._LSHNearest.get_context_hash', props='C11 C05',
             # C11: the hash of a row is the binary code of its sign pattern under the hyperplanes (strict > 0)
             '[C11,C05,hash.code] forall_int(lambda r: implies(0 <= r and r < rows(contexts), '
             'at(result, r) == signcode(row(contexts, r), plane, cols(plane))), lambda r: at(result, r))'])
+
+# ------------------------------------------------------------------------------------------ the hash tables
+# table_to_plane: {k: hyperplane matrix} and table_to_hash_to_index: {k: defaultdict(list) keyed by the hash value},
+# both keyed by range(n_tables).  Abstractly: plane(P, k) and bucket(T, k, h), a total function (missing key = []).
+klass('_ApproximateNeighbors', fields={}, inv=[])
+TAB = 'self.table_to_hash_to_index'
+PLN = 'self.table_to_plane'
+fn('approximate._LSHNearest._add_neighbors', props='C11 C05 C06',
+   params={'hash_values': 'rseq', 'k': 'int', 'h': 'real', 'context_start': 'int'},
+   requires=['0 <= k and k < ntables(%s)' % TAB, 'context_start >= 0'],
+   modifies=[TAB + '[*]'],
+   # C11 / C06: the positions of the rows hashed to h, offset by the number of rows stored before this batch, are
+   # appended to bucket (k, h); no other bucket changes
+   ensures=['[C11,C06,add.bucket] bucket(%s, k, h) == iconcat(old(bucket(%s, k, h)), '
+            'shifted(where_eq(hash_values, h), context_start))' % (TAB, TAB),
+            '[C11,C05,add.others] forall_int(lambda k2: forall_real(lambda h2: implies(not (k2 == k and h2 == h), '
+            'bucket(%s, k2, h2) == old(bucket(%s, k2, h2)))))' % (TAB, TAB),
+            '[C11,add.keys] ntables(%s) == old(ntables(%s))' % (TAB, TAB)])
+
+fn('approximate._LSHNearest._get_neighbors', props='C11 C05 C10',
+   params={'row_2d': 'mat'},
+   requires=['INV.lsh', 'INV.hist', 'not is_none(self.decisions)', 'rows(row_2d) == 1', 'cols(row_2d) == cols(self.contexts)'],
+   modifies=[], result='ilist', pure=True, reads=[TAB, PLN],
+   loops={0: ['unfold_collides(%s, %s, row(row_2d, 0), k)' % (TAB, PLN),
+              'forall_int(lambda j: imem(indices, j) == lsh_collides(%s, %s, row(row_2d, 0), j, k), '
+              'lambda j: imem(indices, j))' % (TAB, PLN),
+              'indices_in_range(indices, slen(self.decisions))']},
+   # C11: exactly the stored rows that share the query's sign pattern in at least one table (union over the tables;
+   # duplicates are possible and are removed by the caller)
+   ensures=['[C11,C05,neighbors.union] forall_int(lambda j: imem(result, j) == '
+            'lsh_collides(%s, %s, row(row_2d, 0), j, self.n_tables), lambda j: imem(result, j))' % (TAB, PLN),
+            '[C11,C03,neighbors.range] indices_in_range(result, slen(self.decisions))'])
+
+# ------------------------------------------------------------------------------------------ training
+from specs.neighbors import NB_FIT, STORED_R, TS_IN      # noqa: E402
+
+# C11: bucket (k, h) lists, in ascending order, exactly the stored rows whose hash under plane k is h
+LSH_DEF = ('forall_int(lambda k: forall_real(lambda h: implies(0 <= k and k < self.n_tables, bucket(%s, k, h) == '
+           'where_eq(lsh_hashes(self.contexts, plane(%s, k)), h))))' % (TAB, PLN))
+LSH_SHAPE = ('forall_int(lambda k: implies(0 <= k and k < self.n_tables, rows(plane(%s, k)) == cols(self.contexts) and '
+             'cols(plane(%s, k)) == self.n_dimensions))' % (PLN, PLN))
+klass('_LSHNearest',
+      fields={'n_dimensions': 'int const', 'n_tables': 'int const', 'buckets': 'int const',
+              'table_to_hash_to_index': 'imap:hashtab', 'table_to_plane': 'imap:mat'},
+      inv=['[C11,lsh.tables] ntables(%s) == self.n_tables and ntables(%s) == self.n_tables and self.n_tables >= 0 and '
+           'self.n_dimensions >= 0' % (TAB, PLN),
+           '[C11,lsh.def] is_none(self.decisions) or (%s)' % LSH_DEF,
+           '[C11,lsh.shape] is_none(self.decisions) or (%s)' % LSH_SHAPE])
+
+# the two functions whose loops (a dictionary comprehension drawing from the generator per key; joblib maps over chunks
+# and over np.unique of the hash values with writes into the nested dictionaries) are outside PyVC's reach: their
+# contracts are ASSUMED here and exercised by the bounded leg (rt C11, C05, C06, C07); listed as trusted in the evidence
+fn('approximate._LSHNearest._initialize', props='C11 C07', trusted=True,
+   params={'n_cols': 'int'},
+   requires=['INV.lsh.tables'],
+   modifies=[PLN + '[*]', TAB + '[*]', 'self.rng.rng.state'],
+   ensures=['INV.lsh.tables',
+            '[C11,init.shape] forall_int(lambda k: implies(0 <= k and k < self.n_tables, rows(plane(%s, k)) == n_cols and '
+            'cols(plane(%s, k)) == self.n_dimensions))' % (PLN, PLN),
+            '[C07,init.empty] forall_int(lambda k: forall_real(lambda h: slen(bucket(%s, k, h)) == 0))' % TAB],
+   note='trusted: dictionary comprehension with one generator draw per key')
+fn('approximate._LSHNearest._fit_operation', props='C11 C05 C06', trusted=True,
+   params={'contexts': 'mat', 'context_start': 'int'},
+   requires=['INV.lsh.tables', 'context_start >= 0'],
+   modifies=[TAB + '[*]'],
+   ensures=['INV.lsh.tables',
+            '[C11,C06,fitop.append] forall_int(lambda k: forall_real(lambda h: implies(0 <= k and k < self.n_tables, '
+            'bucket(%s, k, h) == iconcat(old(bucket(%s, k, h)), shifted(where_eq(lsh_hashes(contexts, plane(%s, k)), h), '
+            'context_start)))))' % (TAB, TAB, PLN)],
+   note='trusted: joblib maps over chunks and over np.unique(hash values); _add_neighbors and get_context_hash, which it '
+        'calls, are verified')
+
+for _q, _kind in (('fit', 'fit'), ('partial_fit', 'partial_fit')):
+    pass
+
+fn('neighbors._Neighbors.fit', cls='_LSHNearest', props='C03 C06 C07 C14 C17',
+   params=NB_FIT,
+   requires=['INV~hist~lsh', 'INV.lsh.tables', 'slen(decisions) == slen(rewards)', 'rows(contexts) == slen(decisions)',
+             'cols(contexts) >= 1', TS_IN],
+   modifies=['self.decisions', 'self.contexts', 'self.rewards', 'self.lp.is_contextual_binarized?'],
+   ensures=['INV~lsh', 'INV.lsh.tables', '[C03,C07,hist.d] self.decisions == decisions', '[C03,C07,hist.x] self.contexts == contexts',
+            '[C03,C07,C14,hist.r] same_elems(self.rewards, %s)' % STORED_R])
+fn('neighbors._Neighbors.partial_fit', cls='_LSHNearest', props='C03 C06 C14 C17',
+   params=NB_FIT,
+   requires=['INV~lsh', 'INV.lsh.tables', 'not is_none(self.decisions)', 'slen(decisions) == slen(rewards)',
+             'rows(contexts) == slen(decisions)', TS_IN],
+   raises=['ValueError'], raises_iff='cols(contexts) != cols(self.contexts)',
+   modifies=['self.decisions', 'self.contexts', 'self.rewards', 'self.lp.is_contextual_binarized?'],
+   ensures=['INV~lsh', 'INV.lsh.tables', '[C03,C06,hist.d] self.decisions == concat(old(self.decisions), decisions)',
+            '[C03,C06,hist.x] self.contexts == vstack(old(self.contexts), contexts)',
+            '[C03,C06,C14,hist.r] same_elems(self.rewards, concat(old(self.rewards), %s))' % STORED_R])
+
+fn('approximate._ApproximateNeighbors.fit', cls='_LSHNearest', props='C03 C06 C07 C11 C14 C17',
+   params=NB_FIT,
+   requires=['INV~hist~lsh', 'INV.lsh.tables', 'slen(decisions) == slen(rewards)', 'rows(contexts) == slen(decisions)',
+             'cols(contexts) >= 1', TS_IN],
+   modifies=['self.decisions', 'self.contexts', 'self.rewards', 'self.lp.is_contextual_binarized?', PLN + '[*]', TAB + '[*]',
+             'self.rng.rng.state'],
+   # C07 / C11: after fit the tables list exactly the rows of the new history
+   ensures=['INV', '[C03,C07,hist.d] self.decisions == decisions', '[C03,C07,hist.x] self.contexts == contexts',
+            '[C03,C07,C14,hist.r] same_elems(self.rewards, %s)' % STORED_R])
+fn('approximate._ApproximateNeighbors.partial_fit', cls='_LSHNearest', props='C03 C06 C11 C14 C17',
+   params=NB_FIT,
+   requires=['INV', 'not is_none(self.decisions)', 'slen(decisions) == slen(rewards)', 'rows(contexts) == slen(decisions)', TS_IN],
+   raises=['ValueError'], raises_iff='cols(contexts) != cols(self.contexts)',
+   modifies=['self.decisions', 'self.contexts', 'self.rewards', 'self.lp.is_contextual_binarized?', TAB + '[*]'],
+   # C06 / C11: the new rows are hashed with the same planes and filed under their position in the accumulated history
+   ensures=['INV', '[C03,C06,hist.d] self.decisions == concat(old(self.decisions), decisions)',
+            '[C03,C06,hist.x] self.contexts == vstack(old(self.contexts), contexts)',
+            '[C03,C06,C14,hist.r] same_elems(self.rewards, concat(old(self.rewards), %s))' % STORED_R,
+            '[C11,planes.kept] forall_int(lambda k: implies(0 <= k and k < self.n_tables, plane(%s, k) == old(plane(%s, k))))'
+            % (PLN, PLN)])
+
+# ------------------------------------------------------------------------------------------ prediction
+from specs.neighbors import PC_PARAMS, PC_REQ, ROW, SEEDED, LOOP_INV, parallel_predict_contract      # noqa: E402
+
+LSH_RANGE = ('forall_int(lambda k: forall_real(lambda h: implies(0 <= k and k < self.n_tables, '
+             'indices_in_range(bucket(%s, k, h), slen(self.decisions)))))' % TAB)
+NEIGH = 'idedup(self._get_neighbors(%s))' % ROW
+LSH_ROW = ('(self._get_nhood_predictions(%s, %s, %s, is_predict) if n_indices(%s) > 0 '
+           'else self._get_no_nhood_predictions(%s, is_predict))' % (SEEDED, NEIGH, ROW, NEIGH, SEEDED))
+fn('approximate._ApproximateNeighbors._predict_contexts', cls='_LSHNearest', props='C03 C05 C08 C09 C10 C11',
+   params=PC_PARAMS, requires=PC_REQ, modifies=[], loops=LOOP_INV, result='list:pv',
+   # C11 / C05: row j is answered from exactly the de-duplicated collision set of the query by a private, freshly
+   # seeded copy of the learning policy (NaN / the configured distribution when the set is empty)
+   ensures=['[C05,C08,len] slen(result) == rows(contexts)',
+            '[C03,C05,C10,C11,rowlocal] forall_int(lambda j: implies(0 <= j and j < rows(contexts), '
+            'same_item(result, j, %s)))' % LSH_ROW])
+
+# BaseMAB._parallel_predict is verified for Radius / KNearest receivers (same code); with the LSH row term the chunk
+# flattening obligation (post:rows) is beyond the solver's resource limit, so no contract is claimed for the LSH receiver:
+# row locality *within* a chunk is the contract above, independence of the chunking for LSH is left to the bounded leg.
